@@ -29,6 +29,10 @@ def main():
     if tier == "thorough":
         # second solver: every 20th obligation is re-decided by cvc5 (read by symx.core at import)
         os.environ.setdefault("VERIF_CVC5_EVERY", "20")
+    # "this process has a past": another domain/problem/plan over the same names is handled first (checks/prelude.py); the
+    # workers are forked from this process
+    from . import prelude
+    prelude.run()
     if replay:
         from . import replay as rp
         return rp.run(prop, replay)
